@@ -32,5 +32,5 @@ Extraction "model.ml"
   C20Spec.effective C20Spec.expected_config C20Spec.expected_backend C20Spec.nearest_config
   C20Spec.expected_generate C20Spec.expected_generate_config C20Spec.persisted
   Writer.run_full Writer.run_trace Writer.run_history Writer.content Writer.mtime_of
-  C17Spec.succeeds C17Spec.responsible C17Spec.may_touch C17Spec.rewritten_each_run C17Spec.known_C17
+  C17Spec.succeeds C17Spec.responsible C17Spec.may_touch C17Spec.known_C17
   C17Spec.good_rerun C17Spec.good_fresh C17Spec.nonempty_outputs C17Spec.dom_C17.
